@@ -130,7 +130,9 @@ def trees(draw):
         prev = children[-1] if children and children[-1]["kind"] != "plain" and draw(st.integers(0, 2)) == 0 else None
         ch = draw(channel(names[i], kind, like=prev))
         if draw(st.integers(0, 3)) == 0:
-            ch = {"name": "grp%d" % i, "kind": "plain", "subdirs": [], "strays": [], "children": [ch]}
+            # (a grouping directory may be named like a time stamp - recordings collected under their campaign's start time;
+            # only inside a CHANNEL do such names mean subdirectories of data)
+            ch = {"name": "grp%d" % i if i != 1 else "2014-03-09T12-30-00", "kind": "plain", "subdirs": [], "strays": [], "children": [ch]}
         children.append(ch)
     if draw(st.integers(0, 3)) == 0:
         # data files in a directory without a properties file
